@@ -100,6 +100,7 @@ def run_schedule(scn, plan=(), seed=None, switch_prob=0.0, record=False):
 
     def loop():
         app.run()
+        st['stop_dispatched_when_run_returned'] = st['stop_dispatched']
 
     def firer(i):
         def f():
@@ -146,7 +147,7 @@ def run_schedule(scn, plan=(), seed=None, switch_prob=0.0, record=False):
     res = {'finished': finished, 'violation': S.violation, 'deadlock': S.deadlock, 'dispatched': list(st['dispatched']),
            'switches': list(S.switches), 'points': S.n_points, 'loop_blocked': st.get('loop_blocked', 0),
            'virtual_timeouts': S.virtual_timeouts, 'errors': {t.name: t.error for t in S.threads.values() if t.error},
-           'record': S.record_points, 'stop_dispatched': st['stop_dispatched'], 'nf': nf, 'k': k, 'fired': {str(a): v for a, v in st['fired'].items()}}
+           'record': S.record_points, 'stop_dispatched': st['stop_dispatched'], 'stop_dispatched_when_run_returned': st.get('stop_dispatched_when_run_returned'), 'nf': nf, 'k': k, 'fired': {str(a): v for a, v in st['fired'].items()}}
     return res
 
 
@@ -219,6 +220,12 @@ def plan(tier, seed):
         nrand = 2 if tier == 'quick' else 8
         for r in range(nrand):
             specs.append({'kind': 'random', 'scn': scn, 'seed': seed * 10007 + r, 'n': 40 if tier == 'quick' else 300})
+    if tier != 'quick':
+        for r in range(6):
+            specs.append({'kind': 'stress', 'seed': seed * 31 + r, 'mechs': ['fallback', 'Select', 'Poll', 'EPoll'], 'firers': 4 + r % 5, 'events': 500,
+                          'p': [0.002, 0.01, 0.05][r % 3]})
+    else:
+        specs.append({'kind': 'stress', 'seed': seed, 'mechs': ['fallback', 'EPoll'], 'firers': 4, 'events': 150, 'p': 0.01})
     return specs
 
 
@@ -256,8 +263,8 @@ def explore(b, scn, plans_iter, S, in_window):
         if scn['firers'] >= 2:
             b.reached('two_firers')
         b.reached('virtual_timeouts', res['virtual_timeouts'])
-        if not res['stop_dispatched']:
-            b.reached('observed_stopped_left_undispatched_by_foreign_stop')
+        if not res['stop_dispatched_when_run_returned']:
+            b.reached('observed_run_returned_before_stopped_dispatched_after_foreign_stop')
         bad = {c for c, _ in problems}
         for clause in REQUIRED_OBLIGATIONS:
             if clause not in bad:
@@ -267,7 +274,85 @@ def explore(b, scn, plans_iter, S, in_window):
             b.fail(case, clause, detail, dedup=str(detail.get('kind', '')) if isinstance(detail, dict) else '')
 
 
+def run_stress(spec):
+    """Complement with real OS threads (no scheduler): several firing threads against a manager running in its own
+    thread, with sleep(0) injected at random source lines of circuits/core.  Decides exactly-once and per-thread FIFO
+    only; its watchdog makes the batch inconclusive, never a violation."""
+    import sys
+    import threading
+    import time
+
+    import circuits
+    from circuits import BaseComponent, Event, handler
+    from circuits.core import pollers
+    core_dir = os.path.join(os.path.dirname(circuits.__file__), 'core') + os.sep
+    rng = random.Random(spec['seed'])
+    mon = sys.monitoring
+    mon.use_tool_id(4, 'verif-stress')
+    inj = {'n': 0}
+
+    def on_line(code, line):
+        if not code.co_filename.startswith(core_dir):
+            return mon.DISABLE
+        if rng.random() < spec.get('p', 0.01):
+            inj['n'] += 1
+            time.sleep(0)
+        return None
+    mon.register_callback(4, mon.events.LINE, on_line)
+    mon.set_events(4, mon.events.LINE)
+    b = Batch(PROPERTY)
+    for mech in spec['mechs']:
+        got = []
+
+        class App(BaseComponent):
+            @handler('ext')
+            def _on_ext(self, tid, seq):
+                got.append((tid, seq))
+        app = App()
+        if mech != 'fallback':
+            getattr(pollers, mech)().register(app)
+        app.start()
+        nf, k = spec['firers'], spec['events']
+
+        def firer(i):
+            for seq in range(k):
+                app.fire(Event.create('ext', i, seq))
+        ths = [threading.Thread(target=firer, args=(i,), daemon=True) for i in range(nf)]
+        for t in ths:
+            t.start()
+        deadline = time.time() + 120
+        while len(got) < nf * k and time.time() < deadline:
+            time.sleep(0.01)
+        for t in ths:
+            t.join(5)
+        time.sleep(0.05)
+        app.stop()
+        app.join()
+        case = {'stress': mech, 'firers': nf, 'events': k, 'seed': spec['seed']}
+        if len(got) < nf * k and time.time() >= deadline:
+            b.inconclusive_because('stress run on %s: %d of %d events dispatched within the 120 s watchdog' % (mech, len(got), nf * k))
+            continue
+        b.case(case, nontrivial=True)
+        b.reached('stress_events_dispatched', len(got))
+        b.reached('stress_yields_injected', inj['n'])
+        want = sorted((i, s_) for i in range(nf) for s_ in range(k))
+        if sorted(got) != want:
+            dup = len(got) - len(set(got))
+            b.fail(case, 'EXACTLY_ONCE', {'dispatched': len(got), 'expected': len(want), 'duplicates': dup, 'missing': len(set(want) - set(got))}, dedup='stress')
+        else:
+            b.ok('EXACTLY_ONCE')
+            bad = [i for i in range(nf) if [s_ for t_, s_ in got if t_ == i] != list(range(k))]
+            if bad:
+                b.fail(case, 'THREAD_FIFO', {'threads_out_of_order': bad}, dedup='stress')
+            else:
+                b.ok('THREAD_FIFO')
+    mon.set_events(4, 0)
+    return b.result()
+
+
 def run_batch(spec):
+    if spec.get('kind') == 'stress':
+        return run_stress(spec)
     from vlib import sched
     S = sched.install_and_import()
     import circuits
